@@ -10,6 +10,18 @@ static std::string shortcls(const Basic &e)
     return type_code_name(e.get_type_code()) + "(...)";
 }
 
+// NaN doubles: eq is never true between distinct objects, so no total order consistent with eq exists for them
+static bool has_nan_double(const Basic &e)
+{
+    if (is_a<RealDouble>(e))
+        return std::isnan(down_cast<const RealDouble &>(e).i);
+    if (is_a<ComplexDouble>(e)) {
+        std::complex<double> z = down_cast<const ComplexDouble &>(e).i;
+        return std::isnan(z.real()) || std::isnan(z.imag());
+    }
+    return false;
+}
+
 int main(int argc, char **argv)
 {
     init(argc, argv, "C02");
@@ -86,7 +98,8 @@ int main(int argc, char **argv)
         } catch (...) {
         }
         c.outcome(tn + ":" + std::to_string(ab));
-        std::string pair = "(" + shortcls(*a.e) + " , " + shortcls(*b.e) + ")";
+        std::string pair = (has_nan_double(*a.e) || has_nan_double(*b.e)) ? std::string("nan-double:") + tn
+                                                                           : "(" + shortcls(*a.e) + " , " + shortcls(*b.e) + ")";
         if (ab < -1 || ab > 1)
             c.violation("cmp-out-of-range:" + tn, "__cmp__(" + a.recipe + ", " + b.recipe + ") = " + std::to_string(ab));
         if (ab == 0)
